@@ -413,6 +413,21 @@ namespace
                         if (kind == 0) { p.kind = ParamPattern::Kind::Input; p.ts = parse_tpat(c); }
                         else if (kind == 1) { p.kind = ParamPattern::Kind::Scalar; p.scalar = parse_spat(c); }
                         else { throw Malformed("param kind"); }
+                        // default of the parameter: 0 required | 1 None default | 2 S default value of schema S
+                        switch (c.next())
+                        {
+                            case 0: break;
+                            case 1: p.default_value = Value{}; break;
+                            case 2:
+                            {
+                                const ValueTypeMetaData *meta = parse_sty(c);
+                                Value                    v{ValuePlanFactory::instance().type_for(meta)};
+                                if (!v.has_value() || v.schema() != meta) { throw std::runtime_error("default value construction"); }
+                                p.default_value = std::move(v);
+                                break;
+                            }
+                            default: throw Malformed("default");
+                        }
                         o.params.push_back(std::move(p));
                     }
                     s.ovs.push_back(std::move(o));
